@@ -22,6 +22,8 @@ RULE = ("charts of 6 games (base/osu/qua/bms/o2j/sm), 1-10 keys, 0-120 notes (th
         "different kind/length (also at the end of a column), single-note and empty columns, empty hit or hold lists, "
         "gap/threshold >= 0 incl. 0, rows shuffled; StepMania charts may carry mines/fakes/lifts/keysounds/rolls placed "
         "between / on the hits and holds (they must come back untouched and must not influence the result); "
+        "every list is built in one of five ways (float64 frame, int64 frame, from_dict of column lists / of row dicts with Python ints, "
+        "item objects with Python ints), int-typed lists combined with fractional gap/threshold and fractional times of the other list; "
         "non-trivial = some column holds at least two notes")
 ASSUMPTIONS = [
     "pandas concat/sort_values/groupby/diff/shift/itertuples and DataFrame.from_dict are modelled as list operations "
@@ -61,8 +63,23 @@ def _map_class(game):
     raise ValueError(game)
 
 
-def make_list(cls, rows):
-    """a list of class `cls` holding `rows` ([offset, column(, length)]), every other column at its declared default"""
+BUILDS = ["frame", "frame_int", "dict", "ldict", "items"]
+
+
+def _pynum(x):
+    """a Python int when the value is an integer, else the (exact) float — what a user types"""
+    f = F(x)
+    return int(f) if f.denominator == 1 else float(f)
+
+
+def make_list(cls, rows, build="frame"):
+    """a list of class `cls` holding `rows` ([offset, column(, length)]), every other column at its declared default.
+    build: how the list is constructed, which decides the column dtypes —
+      frame      pd.DataFrame with float64 offset/length
+      frame_int  pd.DataFrame with int64 offset/length where every value of the column is an integer
+      dict       cls.from_dict({column: [values]}) with Python ints where the value is an integer
+      ldict      cls.from_dict([{...}, ...]) likewise
+      items      cls([Item(...), ...]) likewise"""
     import copy
     import numpy as np
     import pandas as pd
@@ -71,14 +88,35 @@ def make_list(cls, rows):
     if n == 0:
         return tl
     props = cls._item_class()._props
+    has_len = "length" in tl.df.columns
+    if build in ("dict", "ldict", "items"):
+        d = dict(offset=[_pynum(r[0]) for r in rows], column=[int(r[1]) for r in rows])
+        if has_len:
+            d["length"] = [_pynum(r[2]) for r in rows]
+        if build == "dict":
+            return cls.from_dict(d)
+        if build == "ldict":
+            return cls.from_dict([{k: v[i] for k, v in d.items()} for i in range(n)])
+        items = []
+        for i in range(n):
+            kw = {k: copy.deepcopy(v[1]) for k, v in props.items()}
+            kw.update({k: v[i] for k, v in d.items()})
+            items.append(cls._item_class()(**kw))
+        return cls(items)
+
+    def numcol(vals):
+        fs = [F(v) for v in vals]
+        if build == "frame_int" and all(f.denominator == 1 for f in fs):
+            return np.array([int(f) for f in fs], dtype="int64")
+        return np.array([float(f) for f in fs], dtype=float)
     data = {}
     for c in tl.df.columns:
         if c == "offset":
-            data[c] = np.array([float(F(r[0])) for r in rows], dtype=float)
+            data[c] = numcol([r[0] for r in rows])
         elif c == "column":
             data[c] = np.array([int(r[1]) for r in rows], dtype=int)
         elif c == "length":
-            data[c] = np.array([float(F(r[2])) for r in rows], dtype=float)
+            data[c] = numcol([r[2] for r in rows])
         else:
             dtype, default = props[c]
             if isinstance(default, (list, dict, set)):
@@ -90,10 +128,11 @@ def make_list(cls, rows):
 
 def build_map(case):
     m = _map_class(case["game"])()
-    m.hits = make_list(type(m.hits), case["hits"])
-    m.holds = make_list(type(m.holds), case["holds"])
+    bd = case.get("build") or {}
+    m.hits = make_list(type(m.hits), case["hits"], bd.get("hits", "frame"))
+    m.holds = make_list(type(m.holds), case["holds"], bd.get("holds", "frame"))
     for k, rows in (case.get("extras") or {}).items():
-        setattr(m, k, make_list(type(m.objs[k]), rows))
+        setattr(m, k, make_list(type(m.objs[k]), rows, bd.get("extras", "frame")))
     bp = case.get("bpms") or []
     if bp:
         import pandas as pd
@@ -230,6 +269,8 @@ def run(case, drv):
     extras, hits, holds = case_rows(case)
     inp = hits + holds
     tags = [game, case["mode"]]
+    bd = case.get("build") or {}
+    tags += sorted({"build:" + v for v in bd.values()} or {"build:frame"})
     # ---- implementation
     m = build_map(case)
     snapshot = {k: v.df.copy(deep=True) for k, v in m.objs.items() if k not in ("hits", "holds")}
@@ -443,12 +484,38 @@ def gen(rng, tier, i):
             else:
                 keep.append(nt)
         notes = keep
+    # how the lists are built decides their column dtypes (float64 / int64); the result's VALUES must not depend on it
+    build = {}
+    if mode == "E" and rng.random() < 0.3:
+        # integer-valued (hence int-typed) list(s) together with fractional gap / threshold / times of the other list
+        which = rng.choice(["holds", "hits", "both", "holds"])
+        half = Fr(1, 2) if rng.random() < 0.6 else Fr(0)
+        nn = []
+        for (t, c, l) in notes:
+            is_hold = l is not None
+            if which == "both" or (which == "holds") == is_hold:
+                nn.append((Fr(math.floor(t)), c, None if l is None else Fr(math.floor(l))))
+            else:
+                nn.append((t + half, c, l))
+        notes = nn
+        gap = rng.choice([Fr(21, 2), Fr(1, 2), Fr(601, 4), Fr(135, 4), Fr(0), gap])
+        thr = rng.choice([Fr(0), Fr(100), Fr(1, 4), Fr(199, 2), thr])
+        ints = ["frame_int", "dict", "ldict", "items"]
+        build["hits"] = rng.choice(ints if which in ("hits", "both") else BUILDS)
+        build["holds"] = rng.choice(ints if which in ("holds", "both") else BUILDS)
+    elif rng.random() < 0.5:
+        build["hits"] = rng.choice(BUILDS)
+        build["holds"] = rng.choice(BUILDS)
+        if rng.random() < 0.3:
+            build["extras"] = rng.choice(BUILDS)
     hits = [[R(t), c] for (t, c, l) in notes if l is None]
     holds = [[R(t), c, R(l)] for (t, c, l) in notes if l is not None]
     bpms = [[R(Fr(rng.randrange(0, 5000))), R(Fr(rng.choice([60, 120, 150, 200])))] for _ in range(rng.choice([0, 1, 1, 2]))]
     case = dict(claim="full_ln", game=game, mode=mode, gap=R(gap), thr=R(thr), hits=hits, holds=holds, bpms=bpms)
     if extras:
         case["extras"] = extras
+    if build:
+        case["build"] = build
     return case
 
 
@@ -484,6 +551,12 @@ def corpus():
     c.append(_c("base", 150, 100, [(float(0.1 + 0.2), 0), (250.3, 0), (1000.7, 0)], [(500.55, 1, 20.25)], mode="T"))
     # many stacked notes in one column: numpy's quicksort is not stable beyond 16 elements
     c.append(_c("base", 1, 1, [(0, 0)] * 20 + [(100, 0)] * 20, [(100, 0, k) for k in range(1, 21)] + [(0, 0, 5)] * 3))
+    # int-typed input lists (Python ints, as the repo's own tests build them) with a fractional gap / fractional times:
+    # the VALUES of the result must be the exact ones (seeded change C17-C: the df setter cast the result to the old dtypes)
+    for b in ["dict", "ldict", "items", "frame_int"]:
+        c.append(_c("base", 10.5, 100, [(0, 0), (500, 0)], [], build=dict(hits=b, holds=b)))                 # -> hold 489.5
+        c.append(_c("osu", 10.5, 100, [(0.5, 0), (700.5, 0)], [(300, 0, 50), (2000, 0, 10)], build=dict(hits="frame", holds=b)))
+        c.append(_c("sm", 0.25, 0, [(0, 1), (100, 1), (250, 1)], [(50, 1, 7), (400, 1, 9)], build=dict(hits=b, holds=b)))
     # D23 (repaired) witness shape: a StepMania mine between two hits; rolls / fakes elsewhere
     c.append(_c("sm", G, T, [(0, 0), (1000, 0)], [], extras=dict(mines=[(500, 0)])))
     c.append(_c("sm", G, T, [(0, 0)], [(1000, 0, 50)], extras=dict(rolls=[(2000, 0, 100)], fakes=[(0, 1)])))
@@ -544,6 +617,10 @@ def valid(case):
                     return False
                 if w == 3 and not (_is_rat(r[2], mode) and r[2][0] >= 0):
                     return False
+        bd = case.get("build")
+        if bd is not None:
+            if not isinstance(bd, dict) or any(k not in ("hits", "holds", "extras") or v not in BUILDS for k, v in bd.items()):
+                return False
         for b in case.get("bpms") or []:
             if not (isinstance(b, list) and len(b) == 2 and _is_rat(b[0], mode) and _is_rat(b[1], mode) and b[1][0] > 0):
                 return False
